@@ -4,8 +4,10 @@
 (* the real Mapper / CachedMapper (harness/c04drv.py, drive_dispatch) is    *)
 (* judged against the meaning in C04_Dispatch: the handler names the       *)
 (* classes ended up with, and - for every run (entry point x extra         *)
-(* arguments x hook) - the first handler that ran, the arguments it got    *)
-(* and what came back.  One verdict per record.                            *)
+(* arguments x hook) - the first handler that ran, the arguments it got,   *)
+(* that no other handler ran, and that what came back is what that handler *)
+(* did (the token it returned or the very exception it raised, according   *)
+(* to the outcome assignment of the case).  One verdict per record.        *)
 (***************************************************************************)
 EXTENDS C04_Dispatch, Json, IOUtils
 VARIABLES blk, off
@@ -24,6 +26,9 @@ ModeKind(m) == IF m \in {"call", "ccall"} THEN "call" ELSE "fallback"
 \* Expression only, so it inherits nothing
 WantName(L, nb, c, i) == IF c.chain[i].mix THEN EffName(<< L[nb + i] >>, 1) ELSE EffName(L, nb + i)
 
+\* observations recorded before round 5 have no seq / same fields
+Obs(o) == o @@ [seq |-> IF o.first = "" THEN << >> ELSE << o.first >>, same |-> TRUE]
+
 JudgeRec(rec) ==
     LET c == rec.case
         user == c.ty = "user"
@@ -32,6 +37,8 @@ JudgeRec(rec) ==
                                          Cls(c.chain[i].chars, c.chain[i].deco, c.chain[i].own)]]
                ELSE [ty |-> "foreign", kind |-> c.kind, reg |-> c.reg]
         userImpl == SeqToSet(c.impl)
+        \* records written before the handlers' outcomes were a dimension: every handler returns
+        oc == IF "oc" \in DOMAIN c THEN c.oc ELSE OcAll
         Impl == userImpl \cup SeqToSet(rec.stubs)
         nb == IF user THEN Len(BuiltinLineage(c.base)) ELSE 0
         \* clause "name": the handler name every user class ended up with
@@ -43,8 +50,8 @@ JudgeRec(rec) ==
         tFall == Target(obj, Impl, "fallback")
         TargetOf(j) == IF ModeKind(Runs[j].mode) = "call" THEN tCall ELSE tFall
         vs == [j \in 1..Len(Runs) |->
-                 JudgeObs(TargetOf(j), rec.obs[j],
-                          Runs[j].ap.a, Runs[j].ap.k, userImpl, Runs[j].hookret)]
+                 JudgeObs(TargetOf(j), Obs(rec.obs[j]),
+                          Runs[j].ap.a, Runs[j].ap.k, userImpl, Runs[j].hookret, oc)]
         bad == { j \in 1..Len(Runs) : vs[j] \notin {"OK", "SKIP"} }
     IN IF Len(rec.obs) # Len(Runs) THEN [v |-> "MALFORMED"]
        ELSE IF badName # 0
@@ -56,6 +63,7 @@ JudgeRec(rec) ==
             [v |-> vs[j], run |-> j, mode |-> Runs[j].mode,
              target |-> TargetOf(j),
              first |-> rec.obs[j].first, exc |-> rec.obs[j].exc,
+             seq |-> Obs(rec.obs[j]).seq, who |-> oc.who, want |-> OcOf(oc, TargetOf(j)),
              cat |-> IF user THEN "user" ELSE Category(c.kind)]
        ELSE IF \E j \in 1..Len(Runs) : vs[j] = "SKIP" THEN [v |-> "SKIP"]
        ELSE [v |-> "OK"]
